@@ -358,6 +358,7 @@ def ob_registry(run, oid):
 
 
 def check(run):
+    D.ob_watermark_comparisons(run, "O6.7", ["consensus::pool"], 10, "a child waiting for its parent's certificate (or a pending safe-to-notar block) dropped one slot too early is never re-evaluated: the signal is not raised although every condition holds")
     ob_s2n_table(run, "O6.1")
     ob_triggers(run, "O6.2")
     ob_safe_to_skip(run, "O6.3")
